@@ -49,3 +49,17 @@ Theorem C08_attrs_env : forall t c,
     assoc_str "inner_attr" (trait_env t c) = Some (match tc_inner_attr (c_core c) with Some a => a | None => [] end).
 Proof. exact env_attrs. Qed.
 Print Assumptions C08_attrs_env.
+
+(* `return expr` replaces the WHOLE generated body, whatever the members carry - in particular no post-init statement of a bare
+   #[parent] member survives (finding F-08b / F-17b, repaired in /repo): the item is the skeleton with the vars bindings and the
+   expression (`*other = expr;` for into_existing), nothing else *)
+Theorem C08_return_whole_body : forall t c0 qr,
+    tc_qret (c_core c0) = Some qr -> c_fallible c0 = false ->
+    let c := no_post c0 in
+    let e1 := ("pre_init", opt_toks (struct_pre_init c0)) :: ("init", quick_return_block qr c) :: ("post_init", []) :: trait_env t c in
+    quote_trait t c0 =
+    Ok (if is_from (c_kind c0) then inst (("pre_init", opt_toks (struct_pre_init c0)) :: ("init", quick_return_block qr c) :: trait_env t c) sk_from
+        else if is_intoish (c_kind c0) then inst (("body", inst e1 sk_into_body_plain) :: e1) sk_into
+        else inst e1 sk_into_existing).
+Proof. exact return_replaces_whole_body. Qed.
+Print Assumptions C08_return_whole_body.
